@@ -96,3 +96,223 @@ def build(rnd, n):
     hdr = struct.pack(">LHHH", 0x00010000, 10, 10 + len(sl), 10 + len(sl) + len(fl))
     desc = ["PairPos" + k for k, _b in subs]
     return hdr + sl + fl + ll, desc
+
+
+# =============================================================== foreign-writer GPOS (round 4)
+def _coverage2_unordered(rnd, n, want):
+    """Coverage format 2 whose coverage indices do NOT follow glyph order: ranges get their
+    StartCoverageIndex in a shuffled order, RangeRecords are written sorted by start glyph (as the
+    spec requires).  -> (bytes, glyph ids in coverage-index order)"""
+    pool = list(range(1, n))
+    starts = sorted(rnd.sample(pool[::4], min(len(pool[::4]), want)))
+    ranges = []
+    for s in starts:
+        ranges.append((s, min(n - 1, s + rnd.choice([0, 1, 2]))))
+    order = list(range(len(ranges)))
+    while len(order) > 1 and order == sorted(order):
+        rnd.shuffle(order)
+    idx, start_index, glyphs = 0, {}, []
+    for k in order:
+        s, e = ranges[k]
+        start_index[k] = idx
+        idx += e - s + 1
+        glyphs += list(range(s, e + 1))
+    out = struct.pack(">HH", 2, len(ranges))
+    for k, (s, e) in enumerate(ranges):
+        out += struct.pack(">HHH", s, e, start_index[k])
+    return out, glyphs
+
+
+def device(rnd, fmt, pattern):
+    """Device table: delta format 1/2/3 (2/4/8 bits), deltas per `pattern`"""
+    bits = {1: 2, 2: 4, 3: 8}[fmt]
+    lo, hi = -(1 << (bits - 1)), (1 << (bits - 1)) - 1
+    per = 16 // bits
+    count = rnd.choice([per + 1, 2 * per + 1, 2 * per + per // 2, 3 * per - 1, per - 1 or 1, 1])
+    deltas = [rnd.choice([lo, hi, 1, -1]) for _ in range(count)]
+    if pattern in ("zero-tail", "zero-both"):
+        tail = count % per or per
+        for i in range(count - tail, count):
+            deltas[i] = 0                       # the trailing (partial) word is all zero
+    if pattern in ("zero-head", "zero-both") and count > per:
+        for i in range(per):
+            deltas[i] = 0
+    start = rnd.choice([6, 9, 12])
+    out = struct.pack(">HHH", start, start + count - 1, fmt)
+    acc, nb = 0, 0
+    for d in deltas:
+        acc = (acc << bits) | (d & ((1 << bits) - 1))
+        nb += bits
+        if nb == 16:
+            out += struct.pack(">H", acc)
+            acc, nb = 0, 0
+    if nb:
+        out += struct.pack(">H", acc << (16 - nb))
+    return out
+
+
+def singlepos2_cov2(rnd, n):
+    cov, glyphs = _coverage2_unordered(rnd, n, rnd.choice([3, 4, 5]))
+    vf = rnd.choice([0x0004, 0x0005, 0x000F])
+    vals = b"".join(_value(rnd, vf) for _ in glyphs)
+    hdr = 8
+    return struct.pack(">HHHH", 2, hdr + len(vals), vf, len(glyphs)) + vals + cov
+
+
+def pairpos1_cov2(rnd, n):
+    cov, firsts = _coverage2_unordered(rnd, n, rnd.choice([2, 3]))
+    vf1, vf2 = rnd.choice([(0x0004, 0), (0x0005, 0x0004)])
+    sets = []
+    for _f in firsts:
+        k = rnd.randrange(1, 5)
+        seconds = sorted(rnd.sample(range(1, n), k))
+        body = struct.pack(">H", k)
+        for s in seconds:
+            body += struct.pack(">H", s) + _value(rnd, vf1) + _value(rnd, vf2)
+        sets.append(body)
+    hdr = 10 + 2 * len(sets)
+    offs, pos = [], hdr + len(cov)
+    for b in sets:
+        offs.append(pos)
+        pos += len(b)
+    return struct.pack(">HHHHH", 1, hdr, vf1, vf2, len(sets)) + struct.pack(">%dH" % len(offs), *offs) + cov + b"".join(sets)
+
+
+def singlepos1_device(rnd, n, fmt, pattern):
+    """SinglePos format 1, ValueFormat XPlacement|YAdvance|XPlaDevice|YAdvDevice, two Device tables"""
+    gl = sorted(rnd.sample(range(1, n), min(n - 1, 3)))
+    cov = _coverage(gl)
+    d1 = device(rnd, fmt, pattern)
+    d2 = device(rnd, rnd.choice([1, 2, 3]), rnd.choice(["zero-tail", "zero-head", "plain"]))
+    vf = 0x0001 | 0x0008 | 0x0010 | 0x0080
+    hdr = 6 + 8
+    off_cov = hdr
+    off_d1 = hdr + len(cov)
+    off_d2 = off_d1 + len(d1)
+    val = struct.pack(">hhHH", rnd.choice([-30, 25]), rnd.choice([10, -5]), off_d1, off_d2)
+    return struct.pack(">HHH", 1, off_cov, vf) + val + cov + d1 + d2
+
+
+def build_foreign(rnd, n):
+    """GPOS of type 1/2 lookups in encodings fontTools does not emit by itself."""
+    n = min(n, 400)
+    subs = [("SinglePos2/coverage2-unordered", 1, singlepos2_cov2(rnd, n)),
+            ("PairPos1/coverage2-unordered", 2, pairpos1_cov2(rnd, n))]
+    for fmt in (1, 2, 3):
+        pat = rnd.choice(["zero-tail", "zero-both"])
+        subs.append(("SinglePos1/device-format%d-%s" % (fmt, pat), 1, singlepos1_device(rnd, n, fmt, pat)))
+    rnd.shuffle(subs)
+    lookups = [struct.pack(">HHHH", t, 0, 1, 8) + body for _k, t, body in subs]
+    ll = struct.pack(">H", len(lookups))
+    pos = 2 + 2 * len(lookups)
+    offs = []
+    for l in lookups:
+        offs.append(pos)
+        pos += len(l)
+    ll += struct.pack(">%dH" % len(offs), *offs) + b"".join(lookups)
+    script = struct.pack(">HH", 4, 0) + struct.pack(">HHH", 0, 0xFFFF, 1) + struct.pack(">H", 0)
+    sl = struct.pack(">H", 1) + b"DFLT" + struct.pack(">H", 8) + script
+    feat = struct.pack(">HH", 0, len(lookups)) + struct.pack(">%dH" % len(lookups), *range(len(lookups)))
+    fl = struct.pack(">H", 1) + b"kern" + struct.pack(">H", 8) + feat
+    hdr = struct.pack(">LHHH", 0x00010000, 10, 10 + len(sl), 10 + len(sl) + len(fl))
+    return hdr + sl + fl + ll, [k for k, _t, _b in subs]
+
+
+# ---------------------------------------------------------------- spec-level reader (meaning)
+def _read_coverage(d, p):
+    fmt, cnt = struct.unpack(">HH", d[p:p + 4])
+    out = {}
+    if fmt == 1:
+        for i, g in enumerate(struct.unpack(">%dH" % cnt, d[p + 4:p + 4 + 2 * cnt])):
+            out[g] = i
+    elif fmt == 2:
+        for k in range(cnt):
+            s, e, si = struct.unpack(">HHH", d[p + 4 + 6 * k:p + 10 + 6 * k])
+            for g in range(s, e + 1):
+                out[g] = si + g - s
+    else:
+        raise ValueError("coverage format %d" % fmt)
+    return out
+
+
+def _read_device(d, p):
+    if p + 6 > len(d):
+        raise ValueError("Device table header past the end of the table")
+    start, end, fmt = struct.unpack(">HHH", d[p:p + 6])
+    if fmt not in (1, 2, 3):
+        return ("variation-index", start, end, fmt)
+    bits = {1: 2, 2: 4, 3: 8}[fmt]
+    count = end - start + 1
+    nwords = (count * bits + 15) // 16
+    if p + 6 + 2 * nwords > len(d):
+        raise ValueError("Device table runs past the end of the table")
+    words = struct.unpack(">%dH" % nwords, d[p + 6:p + 6 + 2 * nwords])
+    out = []
+    for i in range(count):
+        w = words[(i * bits) // 16]
+        v = (w >> (16 - bits - (i * bits) % 16)) & ((1 << bits) - 1)
+        out.append(v - (1 << bits) if v >= 1 << (bits - 1) else v)
+    return (start, tuple(out))
+
+
+def _read_value(d, p, vf, base):
+    out = []
+    for bit in (1, 2, 4, 8):
+        if vf & bit:
+            out.append(struct.unpack(">h", d[p:p + 2])[0])
+            p += 2
+        else:
+            out.append(0)
+    for bit in (0x10, 0x20, 0x40, 0x80):
+        if vf & bit:
+            off = struct.unpack(">H", d[p:p + 2])[0]
+            p += 2
+            out.append(_read_device(d, base + off) if off else None)
+        else:
+            out.append(None)
+    return tuple(out), p
+
+
+def gpos_meaning(data):
+    """{(lookup index, 'single', gid): value} / {(lookup index, 'pair', first, second): (v1, v2)} for
+    lookup types 1 and 2 (PairPos format 1); other lookups are not represented."""
+    ll = struct.unpack(">H", data[8:10])[0]
+    (nl,) = struct.unpack(">H", data[ll:ll + 2])
+    out = {}
+    for li in range(nl):
+        lo = ll + struct.unpack(">H", data[ll + 2 + 2 * li:ll + 4 + 2 * li])[0]
+        ltype, _flag, nsub = struct.unpack(">HHH", data[lo:lo + 6])
+        for si in range(nsub):
+            st = lo + struct.unpack(">H", data[lo + 6 + 2 * si:lo + 8 + 2 * si])[0]
+            t = ltype
+            if t == 9:
+                _f, t, eo = struct.unpack(">HHL", data[st:st + 8])
+                st += eo
+            fmt = struct.unpack(">H", data[st:st + 2])[0]
+            if t == 1:
+                cov = _read_coverage(data, st + struct.unpack(">H", data[st + 2:st + 4])[0])
+                vf = struct.unpack(">H", data[st + 4:st + 6])[0]
+                if fmt == 1:
+                    v, _p = _read_value(data, st + 6, vf, st)
+                    for g in cov:
+                        out.setdefault((li, "single", g), v)
+                else:
+                    size = 2 * bin(vf & 0xFF).count("1")
+                    for g, ci in cov.items():
+                        v, _p = _read_value(data, st + 8 + ci * size, vf, st)
+                        out.setdefault((li, "single", g), v)
+            elif t == 2 and fmt == 1:
+                cov = _read_coverage(data, st + struct.unpack(">H", data[st + 2:st + 4])[0])
+                vf1, vf2, npairs = struct.unpack(">HHH", data[st + 4:st + 10])
+                for g, ci in cov.items():
+                    if ci >= npairs:
+                        continue
+                    ps = st + struct.unpack(">H", data[st + 10 + 2 * ci:st + 12 + 2 * ci])[0]
+                    (k,) = struct.unpack(">H", data[ps:ps + 2])
+                    p = ps + 2
+                    for _ in range(k):
+                        (sec,) = struct.unpack(">H", data[p:p + 2])
+                        v1, p = _read_value(data, p + 2, vf1, ps)
+                        v2, p = _read_value(data, p, vf2, ps)
+                        out.setdefault((li, "pair", g, sec), (v1, v2))
+    return out
